@@ -1,1 +1,3 @@
 pub mod epoch;
+pub mod farm;
+pub mod farm_replay;
